@@ -39,4 +39,9 @@ for it in range(R.n(40, 1500)):
     # opposite orientation, same band
     g = stg.Frame(fchans=n, tchans=T, df=df, dt=dt, fch1=(f.fmin if asc else f.fmax) if False else (f.fmax if asc else f.fmin), ascending=not asc, t_start=0)
     R.check('orientation/same-axes', c, np.allclose(f.fs, g.fs, rtol=0, atol=1e-9 * df + 8 * np.spacing(abs(fch1) + n * df)) and np.array_equal(f.ts, g.ts), float(np.max(np.abs(f.fs - g.fs))))
+# axis lengths for many (tchans, dt) / (fchans, df) pairs (float length of the axes)
+for T in range(1, R.n(70, 300)):
+    for dt in (0.1, 0.3, 0.7, 1.0737, 18.253611008, 1.4316557653333333):
+        f = stg.Frame(fchans=T, tchans=T, df=dt, dt=dt, fch1=1e9, t_start=0)
+        R.check('axes/lengths', dict(tchans=T, fchans=T, dt=dt, df=dt), f.ts.shape == (T,) and f.fs.shape == (T,) and len(f.ts_ext) == T + 1, [f.ts.shape, f.fs.shape])
 R.finish()
